@@ -12,6 +12,7 @@ import XsdataModel.Proofs.Shape
 import XsdataModel.Proofs.Escape
 import XsdataModel.Proofs.QNameScope
 import XsdataModel.Spec.ObjectTree
+import XsdataModel.Proofs.QNameEverywhere
 
 namespace Props.C03
 open Py Xs.Ns Xs.Sax Xs.Writer Spec.XmlNs Spec.EventTree Spec.Hyps
@@ -483,6 +484,40 @@ example :
     ∧ xsiTypeValue tblNsEnv Tables.qnXsiType (.atom (.qname (inB ['T']))) = .atom (.qname (inB ['T']))
     ∧ clark (inB ['T']) = some (some urnB, ['T']) := by
   refine ⟨by decide +kernel, by decide +kernel, by decide +kernel, ⟨_, _, _, rfl, rfl⟩, rfl, by decide +kernel⟩
+
+/-- **qname_values_resolve_everywhere (partial)** — gap 7 below the root.  For every user prefix
+map in `userMapOK` and every document in `contentOK` (any nesting; hypotheses on the inputs), with
+`tag`, `M2`, `A`, `f` what the handler computes for the root (`splitQName`, the ATTR loop, `flush_start`):
+the root (`AttrsResolve`) and EVERY element below it (`QAll`, which follows the tree writer `calls`
+element by element) has each of its QName-valued attributes (`xsi:type`, QName-typed attributes: the
+last ATTR event of each name) in the attribute dict that is written, with a text `s` such that
+`resolveElem scope s` is the QName of the event — `scope` being the namespace scope an XML reader
+computes for that element from the declarations the writer puts on it and on its ancestors
+(`applyDecls parentScope (newPrefixes parentMap f.map)`, i.e. `pStep` on the `Tok.open_` tokens of
+`open_elem`) — or `s` is the bare local name (the namespace is the default of the element's map:
+findings c03-qname-default-ns / -reset). -/
+theorem qname_values_resolve_everywhere_partial (m : List (Pfx × Str)) (hm : userMapOK tblNsEnv m = true)
+    (q : Str) (attrs : List (Str × Val)) (kids : Content)
+    (hok : contentOK tblNsEnv (userDefault m) (.child q attrs kids .nil) = true)
+    (tag : EName) (hq : splitQName q = .ok tag) (M2 : NsMap) (A : Proofs.TreeWriter.Attrs)
+    (ha : Proofs.TreeWriter.attrsRun tblNsEnv attrs (addNamespace tblNsEnv tag.1 (serializerNsMap m)) [] = some (M2, A))
+    (f : Proofs.TreeWriter.Flushed) (hf : Proofs.QNameEverywhere.bodyFlush tblNsEnv [] tag A M2 kids = some f) :
+    Proofs.QNameEverywhere.AttrsResolve tblNsEnv attrs A (applyDecls [] (newPrefixes [] f.map))
+    ∧ Proofs.QNameEverywhere.QAll tblNsEnv f.map (applyDecls [] (newPrefixes [] f.map)) kids :=
+  Proofs.QNameEverywhere.document_qall tblNsEnv tables_ok m hm q attrs kids hok tag hq M2 A ha f hf
+
+/-- the hypotheses are satisfiable: `R{urn:a}` holding `c` with `xsi:type = {urn:b}T` (two levels),
+under a user map with a default namespace -/
+example :
+    let m : List (Pfx × Str) := [(none, urnA), (some ['z'], urnX)]
+    let kid : Content := .child ['c'] [(Tables.qnXsiType, .atom (.qname (inB ['T'])))]
+      (.child (inA ['d']) [(Tables.qnXsiType, .atom (.qname (inA ['U'])))] .nil .nil) .nil
+    userMapOK tblNsEnv m = true
+    ∧ contentOK tblNsEnv (userDefault m) (.child (inA ['R']) [] kid .nil) = true
+    ∧ (∃ tag M2 A f, splitQName (inA ['R']) = .ok tag
+        ∧ Proofs.TreeWriter.attrsRun tblNsEnv [] (addNamespace tblNsEnv tag.1 (serializerNsMap m)) [] = some (M2, A)
+        ∧ Proofs.QNameEverywhere.bodyFlush tblNsEnv [] tag A M2 kid = some f) := by
+  refine ⟨by decide +kernel, by decide +kernel, ⟨_, _, _, _, rfl, rfl, rfl⟩⟩
 
 /-- the cleaned user map satisfies the invariant whenever it passes the decidable check -/
 theorem user_map_invariant (m : List (Pfx × Str)) (hm : userMapOK tblNsEnv m = true) :
